@@ -112,12 +112,18 @@ class C12(Check):
             if not plan["silent"]:
                 ops = [o for o in ops if not is_silent_op(o)]
             drops = sorted(rng.sample(range(len(ops)), min(len(ops), rng.choice([0, 1, 2, 4])))) if plan["silent"] and ops else []
+            if plan["silent"] and len(ops) >= 8 and rng.random() < 0.25:
+                # a longer stretch without any answer (the ECU reboots): several silent rows in a row
+                a_ = rng.randrange(0, len(ops) - 6)
+                drops = sorted(set(drops) | set(range(a_, a_ + rng.choice([5, 6, 7]))))
             lates = sorted(rng.sample(range(len(ops)), min(len(ops), rng.choice([0, 1, 2])))) if plan["silent"] and ops and rng.random() < 0.4 else []
-            recs.append({"ecu": e, "ops": ops, "tag": r + 1, "drops": drops, "lates": lates, "via": rng.randrange(2) if ecus[e]["two_addresses"] else 0})
+            recs.append({"ecu": e, "ops": ops, "tag": r, "drops": drops, "lates": lates, "via": rng.randrange(2) if ecus[e]["two_addresses"] else 0})
         plan["recs"] = recs
         plan["replay"] = rng.randrange(n_recs)
         plan["select"] = rng.choice(["name", "props", "both", "none"])
         plan["via_command"] = rng.random() < 0.2
+        # the tester that talks to the replaying ECU takes its time between requests (always below the 10 s inactivity limit)
+        plan["replay_pace"] = rng.choice([0.01, 0.01, 1.5, 2.5])
         # the recording host's wall clock is stepped back during a run (NTP correction, VM resume): row order is the order
         # of transmission, whatever the time stamps say
         plan["clock_back"] = rng.choice([0.5, 30.0, 3600.0]) if rng.random() < 0.15 else 0.0
@@ -352,6 +358,7 @@ class C12(Check):
                             rep = None
                         replies.append(rep)
                         states.append(None)
+                        await asyncio.sleep(plan.get("replay_pace", 0.01))
                     await c.close()
                     return
                 server = DBUDSServer(dbpath, ename, props)
@@ -361,7 +368,7 @@ class C12(Check):
                     states.append({"session": server.state.session, "security_access_level": server.state.security_access_level})
                     rep, _ = await st.handle_request(bytes.fromhex(row[1]))
                     replies.append(rep)
-                    await asyncio.sleep(0.01)
+                    await asyncio.sleep(plan.get("replay_pace", 0.01))
                 await server.teardown()
 
             out2 = world2.run_cli(replay, vcap=20000.0, stepcap=5_000_000)
